@@ -165,6 +165,24 @@ def conciliate(src, n=3, nconf=2, strategies=STRATEGIES, same_app=True, closure=
         for p in conflicts:
             src.check('all-copies-stopped', not p['proc'].running_identifiers, sig='STOP')
         src.check('nothing-started', not starts, sig='STOP')
+    elif strat == 'RUNNING_FAILURE' and len({p['rfs'] for p in conflicts}) == 1:
+        # every copy has been stopped; then the running failure strategy of the program applies (the bystander of the
+        # application still runs: no promotion of RESTART_PROCESS)
+        rfs = conflicts[0]['rfs']
+        src.reach('running-failure-' + rfs)
+        for p in conflicts:
+            n_run = len(p['proc'].running_identifiers)
+            if rfs == 'RESTART_PROCESS':
+                src.check('running-failure-strategy-applied', starts.count(p['ns']) == 1 and n_run == 1, sig=rfs,
+                          starts=starts, running=n_run)
+            elif rfs == 'CONTINUE':
+                src.check('running-failure-strategy-applied', p['ns'] not in starts and n_run == 0, sig=rfs,
+                          starts=starts)
+            elif rfs == 'STOP_APPLICATION':
+                src.check('running-failure-strategy-applied', not starts and n_run == 0, sig=rfs, starts=starts)
+            else:
+                src.check('running-failure-strategy-applied', starts.count(p['ns']) == 1 and n_run == 1, sig=rfs,
+                          starts=starts, running=n_run)
     src.obs('requests', sorted(list(r) for r in reqs + later))
 
 
